@@ -18,15 +18,15 @@ PROP = {
         job("udphop-enum-a", "extras", "./transport/udphop/", "udphop",
             ["harness/extras/transport/udphop/c19_hop_test.go"], "^TestVerifC19HopEnum$",
             ["hop-enum-a"], race=True, env={"VERIF_C19_ENUM": "a"},
-            timeout_quick=900, timeout_thorough=5400),
+            timeout_quick=420, timeout_thorough=5400),
         job("udphop-enum-b", "extras", "./transport/udphop/", "udphop",
             ["harness/extras/transport/udphop/c19_hop_test.go"], "^TestVerifC19HopEnum$",
             ["hop-enum-b"], race=True, env={"VERIF_C19_ENUM": "b"},
-            timeout_quick=900, timeout_thorough=5400),
+            timeout_quick=420, timeout_thorough=5400),
         job("udphop", "extras", "./transport/udphop/", "udphop",
             ["harness/extras/transport/udphop/c19_hop_test.go"], "^TestVerifC19Hop(Addr|Long|Race)$",
             ["hop-addr", "hop-long", "hop-race"], race=True,
-            timeout_quick=900, timeout_thorough=5400),
+            timeout_quick=420, timeout_thorough=5400),
     ],
     "min_events": 100000,
     "rule": ("port-expr: fixed table (documented examples, every junk/ambiguous token alone), a grid of two "
